@@ -28,6 +28,7 @@ import (
 	"net/http/httptest"
 	"os"
 	"os/exec"
+	"runtime"
 	"strconv"
 	"strings"
 	"sync"
@@ -610,26 +611,24 @@ func (r *runnerB) Do(op []string) (string, bool) {
 			theWorker = nil
 			return "fatal " + fatalClass(w.errBuf.String()), true
 		}
-		return l, true
-	case <-time.After(reqTimeout):
-		// ask the Go runtime of the worker for a goroutine dump (SIGQUIT), so that the report can say where it hangs
-		w.cmd.Process.Signal(syscall.SIGQUIT)
-		dead := make(chan struct{})
-		go func() { w.cmd.Wait(); close(dead) }()
-		select {
-		case <-dead:
-		case <-time.After(5 * time.Second):
-			w.cmd.Process.Kill()
-			<-dead
+		if strings.HasPrefix(l, "hang ") { // the worker gave up on this request and is exiting
+			w.kill()
+			theWorker = nil
 		}
-		w.in.Close()
+		return l, true
+	case <-time.After(reqTimeout + 20*time.Second):
+		// the worker's own watchdog (see serve) did not answer either
+		w.kill()
 		theWorker = nil
-		return "hang " + hangSite(w.errBuf.String()), true
+		return "hang unknown unknown", true
 	}
 }
 
+var stackBuf []byte
+
 // reqWorker: the child side
 func reqWorker() {
+	stackBuf = make([]byte, 16<<20)
 	// safety net on a shared machine: an allocation a request talks the code into must fail rather than be served
 	var lim syscall.Rlimit
 	if syscall.Getrlimit(syscall.RLIMIT_AS, &lim) == nil {
@@ -729,7 +728,17 @@ func serve(w *worldB, op []string) string {
 			done <- result{"bad-op"}
 		}
 	}()
-	obs := (<-done).obs // the parent process enforces the per-request timeout
+	var obs string
+	select {
+	case res := <-done:
+		obs = res.obs
+	case <-time.After(reqTimeout):
+		// Watchdog: the request did not return.  runtime.Stack(all) stops the world, so the stack of
+		// the serving goroutine is available even while it is running; report where it is busy.  The
+		// goroutine cannot be stopped: the parent replaces this worker.
+		n := runtime.Stack(stackBuf, true)
+		return "hang " + hangSite(string(stackBuf[:n]))
+	}
 	drain(w.up.Events)
 	drain(w.peer.Events)
 	if c := w.log.take(); c != "" {
